@@ -601,7 +601,29 @@ def check_idempotent(prog: Program) -> list[Result]:
     def static(a, b):
         return None
 
-    out = check_two_plans(prog, "optimize-twice", lambda e: optimize(e, fuse=True), twice)
+    out = []
+    # termination: optimize() returns for the query as built, once and repeatedly (a non-converging rule pair is reported by
+    # the library itself as RuntimeError "Optimizer does not converge"); data-independent, decided by running the real optimizer
+    init()
+    env0, frames0 = make_env(prog)
+    try:
+        q0 = prog.build(make_collections(prog, frames0))
+    except Exception:
+        q0 = None
+    if q0 is not None:
+        tname = f"{prog.name}|terminates"
+        try:
+            e1 = optimize(q0.expr, fuse=True)
+            optimize(e1, fuse=True)
+            optimize(q0.expr, fuse=False)
+            out.append(Result(tname, HELD, "", "optimize() converges on the query and on its own output", extra={"trivial": True}))
+        except RuntimeError as e:
+            if "converge" in str(e):
+                out.append(Result(tname, VIOLATION, _sig(prog, "terminates"), f"optimize() reports non-convergence: {str(e)[:300]}",
+                                  {"engine": "P", "program": prog.name, "stage": "terminates"}))
+        except Exception:
+            pass
+    out += check_two_plans(prog, "optimize-twice", lambda e: optimize(e, fuse=True), twice)
     out += check_two_plans(prog, "optimize-twice-nofuse", lambda e: optimize(e, fuse=False), lambda e: optimize(optimize(e, fuse=False), fuse=True))
     # determinism (concrete by-product): the same query optimised again yields the same plan name
     init()
